@@ -275,6 +275,59 @@ def run(ctx):
     wrapper_table(ctx, "C14.4")
     ctx.ob("R-RNG", "C14.4", "nessai", "taint / control-dependence analysis ran over every RNG-consuming call and property read", True, f"{n_checked} consuming sites checked against tainted attributes {sorted(tainted)}")
     ctx.require(n_checked >= 60, f"only {n_checked} RNG-consuming sites found")
+
+    # ---- C14.5 nothing that reaches the sampler is ordered by a set ----------------------------------------------------
+    # str hashes are randomised per process: iterating a set of names (or extending a list with one) gives an order that
+    # differs between two processes started with the same seed - parameter order, hence the columns of the flow's input,
+    # hence the trained flow.  Every iteration over a set-typed expression in the package is either wrapped in sorted(),
+    # or one of the reviewed order-insensitive uses below; anything new is reported.
+    REVIEWED_SET_ITER = {
+        ("__getstate__", "d.keys() - exclude"): "builds the state dict; key order does not reach any result",
+        ("check_proposal_kwargs", "proposals"): "set of classes searched for accepted keyword names (union, order-free)",
+        ("check_proposal_kwargs", "extra_keys"): "only reported in the error message",
+        ("__init__", "{0, 1, 2} - {hz, vt}"): "a one-element set (the remaining axis)",
+        ("_plot_training_data", "labels"): "plotting only",
+    }
+
+    def _setexpr(e_, names_):
+        if isinstance(e_, (ast.Set, ast.SetComp)):
+            return True
+        if isinstance(e_, ast.Call):
+            f_ = e_.func
+            if isinstance(f_, ast.Name) and f_.id in ("set", "frozenset"):
+                return True
+            if isinstance(f_, ast.Attribute) and f_.attr in ("difference", "union", "intersection", "symmetric_difference"):
+                return True
+            return False
+        if isinstance(e_, ast.BinOp) and isinstance(e_.op, (ast.Sub, ast.BitOr, ast.BitAnd, ast.BitXor)):
+            return _setexpr(e_.left, names_) or _setexpr(e_.right, names_)
+        return isinstance(e_, ast.Name) and e_.id in names_
+
+    n_set = 0
+    for f_ in prog.all_functions:
+        names_ = set()
+        for s_ in walk_no_nested(f_.node):
+            if isinstance(s_, ast.Assign) and len(s_.targets) == 1 and isinstance(s_.targets[0], ast.Name) and _setexpr(s_.value, names_):
+                names_.add(s_.targets[0].id)
+        for n_ in walk_no_nested(f_.node):
+            it_ = None
+            if isinstance(n_, ast.For):
+                it_ = n_.iter
+            elif isinstance(n_, (ast.ListComp, ast.DictComp, ast.GeneratorExp)):
+                it_ = n_.generators[0].iter
+            elif isinstance(n_, ast.Call) and isinstance(n_.func, ast.Name) and n_.func.id in ("list", "tuple", "enumerate", "zip") and n_.args:
+                it_ = n_.args[0]
+            elif isinstance(n_, ast.AugAssign) and isinstance(n_.op, ast.Add):
+                it_ = n_.value
+            elif isinstance(n_, ast.Call) and isinstance(n_.func, ast.Attribute) and n_.func.attr in ("extend",) and n_.args:
+                it_ = n_.args[0]
+            if it_ is None or not _setexpr(it_, names_):
+                continue
+            n_set += 1
+            why_ = REVIEWED_SET_ITER.get((f_.name, src(it_)))
+            ctx.ob("R-RNG", "C14.5", f_, "an iteration over a set (hash order: differs between processes) is sorted or a reviewed order-insensitive use", why_ is not None, f"`{src(it_)[:60]}` in `{src(n_)[:70]}`" + (f": {why_}" if why_ else ": the order of its elements reaches a list / loop"), node=n_)
+    ctx.require(n_set >= 5, f"only {n_set} set iterations found (the reviewed ones expected)")
+    ctx.floor("C14.5", 5)
     ctx.assumptions += ["the user's likelihood and prior are deterministic and consume no randomness (premise of the property)", "torch/glasflow distribution sampling draws from torch's global generator", "bit identity itself, fork/pool behaviour and BLAS/torch thread non-determinism are not decided"]
 
 
